@@ -427,10 +427,18 @@ func runC09(r *Rng, n int, tier string) {
 				if arr {
 					want = "[]" + want
 				}
-				schema := u.pre + fmt.Sprintf("CREATE TABLE t (k int NOT NULL, c %s%s);\n", ty, null)
-				query := "-- name: GetC :one\nSELECT c FROM t WHERE k = 1;\n\n-- name: ByC :many\nSELECT k FROM t WHERE c = $1;\n\n-- name: InsC :exec\nINSERT INTO t (k, c) VALUES (1, $1);\n\n-- name: All :many\nSELECT * FROM t;\n"
-				files := map[string]string{"schema.sql": schema, "query.sql": query, "sqlc.json": confV1("postgresql", "")}
-				emit(udtCase(fmt.Sprintf("udt-pg-%d-%v-%v", ui, nn, arr), files, want, []string{"e2e-user", "postgresql"}))
+				// the column lives in a table of the default schema, or of another one (the type name is resolved
+				// the same way: unqualified = default schema)
+				for ti, tbl := range []string{"t", "support.t"} {
+					pre := u.pre
+					if ti == 1 {
+						pre += "CREATE SCHEMA support;\n"
+					}
+					schema := pre + fmt.Sprintf("CREATE TABLE %s (k int NOT NULL, c %s%s);\n", tbl, ty, null)
+					query := strings.ReplaceAll("-- name: GetC :one\nSELECT c FROM t WHERE k = 1;\n\n-- name: ByC :many\nSELECT k FROM t WHERE c = $1;\n\n-- name: InsC :exec\nINSERT INTO t (k, c) VALUES (1, $1);\n\n-- name: All :many\nSELECT * FROM t;\n", " t", " "+tbl)
+					files := map[string]string{"schema.sql": schema, "query.sql": query, "sqlc.json": confV1("postgresql", "")}
+					emit(udtCase(fmt.Sprintf("udt-pg-%d-%v-%v-%d", ui, nn, arr, ti), files, want, []string{"e2e-user", "postgresql", "table:" + tbl}))
+				}
 			}
 		}
 	}
